@@ -349,6 +349,44 @@ fn op_any<F: Format, A: Atomicity>(c: &Case) -> R<String> {
                 bit(hash_of(&a) == hash_of(slice))
             )
         },
+        "views" => {
+            // every pair of views (subtendril / clone + pop_front + pop_back) of ONE buffer: `==`, `!=` and the hash must
+            // be those of the bytes held, whatever the two views share
+            c.arity(1)?;
+            let b = c.raw(0)?;
+            let whole = Tendril::<F, A>::try_from_byte_slice(b).map_err(|_| "invalid-input")?;
+            let n = b.len() as u32;
+            let mut views: Vec<(Tendril<F, A>, &[u8])> = Vec::new();
+            for off in 0..=n {
+                for len in [0u32, 1, 7, 8, 9, 12, 16, 20, n] {
+                    if off.checked_add(len).map_or(true, |e| e > n) {
+                        continue;
+                    }
+                    let m = &b[off as usize..(off + len) as usize];
+                    if let Ok(t) = whole.try_subtendril(off, len) {
+                        views.push((t, m));
+                    }
+                    let mut t = whole.clone();
+                    if t.try_pop_front(off).is_ok() && t.try_pop_back(n - off - len).is_ok() {
+                        views.push((t, m));
+                    }
+                }
+            }
+            let mut bad = String::new();
+            let mut pairs = 0u64;
+            for (t1, m1) in &views {
+                for (t2, m2) in &views {
+                    pairs += 1;
+                    let want = m1 == m2;
+                    let ok = (t1 == t2) == want && (t1 != t2) != want && (!want || hash_of(t1) == hash_of(t2));
+                    if !ok && bad.is_empty() {
+                        bad = format!("{}/{}:eq={},want={}", kb(t1), kb(t2), bit(t1 == t2), bit(want));
+                    }
+                }
+            }
+            keep.push((whole, b.to_vec()));
+            format!("views={} pairs={} bad={}", views.len(), pairs, if bad.is_empty() { "-" } else { &bad })
+        },
         "extt" => {
             if c.args.is_empty() {
                 return Err("bad-case");
@@ -727,7 +765,7 @@ fn exec<A: Atomicity>(c: &Case) -> R<String> {
         };
     }
     match c.op {
-        "bytes" | "reint" | "eq" | "extt" | "send" => any!(),
+        "bytes" | "reint" | "eq" | "extt" | "send" | "views" => any!(),
         "super" => match (c.fmt, c.word(1)?) {
             ("ascii", "utf8") => op_super::<fmt::ASCII, fmt::UTF8, A>(c),
             ("ascii", "latin1") => op_super::<fmt::ASCII, fmt::Latin1, A>(c),
